@@ -33,7 +33,14 @@ static thread_local int t_in_sut = 0;
 struct OpAlloc { int tag, fk, fm, count, fired; };
 static thread_local OpAlloc t_op = {0, 0, 0, 0, 0};
 static thread_local int t_suspend = 0;
-void sim_fault_suspend(bool on) { t_suspend = on ? 1 : 0; }
+void sim_fault_suspend(bool on) { if (on) t_suspend++; else if (t_suspend > 0) t_suspend--; }
+bool sim_fault_suspended() { return t_suspend > 0; }
+// errno as the library sees it: the value left by the previous real (non-bookkeeping) call into the library on this thread;
+// harness code and bookkeeping calls in between never leak into it
+static thread_local int t_sut_errno = 0;
+void sim_errno_reset() { t_sut_errno = 0; errno = 0; }
+void sim_errno_enter() { if (!t_suspend) errno = t_sut_errno; }
+void sim_errno_leave() { if (!t_suspend) t_sut_errno = errno; }
 
 static std::unordered_map<void *, LedRec> &led() { if (!g_led) g_led = new std::unordered_map<void *, LedRec>(); return *g_led; }
 
@@ -123,6 +130,15 @@ static thread_local int t_fopen_fail = 0;
 static uint64_t g_fopen_failed = 0;
 void sim_fopen_fail(int n) { t_fopen_fail = n; }
 uint64_t sim_fopen_failed() { return g_fopen_failed; }
+static thread_local int t_write_fail = 0;
+static uint64_t g_write_failed = 0;
+void sim_write_fail(int n) { t_write_fail = n; }
+uint64_t sim_write_failed() { return g_write_failed; }
+extern "C" ssize_t __real_write(int, const void *, size_t);
+extern "C" ssize_t __wrap_write(int fd, const void *buf, size_t n) {
+    if (t_in_sut && t_write_fail > 0 && fd > 2) { t_write_fail--; g_write_failed++; errno = ENOSPC; return -1; }   // "disk full"
+    return __real_write(fd, buf, n);
+}
 extern "C" FILE *__wrap_fopen(const char *path, const char *mode) {
     if (t_in_sut && t_fopen_fail > 0) { t_fopen_fail--; g_fopen_failed++; errno = EACCES; return NULL; }
     return __real_fopen(path, mode);
